@@ -120,7 +120,7 @@ func tokenize(s string) ([]token, error) {
 				tnr = n
 			}
 			res = append(res, stoken(tnr, bt))
-			i += bl - 1
+			i += bl - l
 		case unicode.IsDigit(c) || c == '.':
 			tok, l := readNumericLiteral(s[i:])
 			if l < 0 {
